@@ -9,6 +9,7 @@ import subprocess
 import time
 import q
 import panics
+import effects
 import intervals as IV
 import callgraph as CG
 import layout
@@ -155,6 +156,38 @@ def static_state_rules(ctx, fx, scope):
                 hit += 1
                 ctx.inst('S5', '%s hash-iteration' % b.name.split('asefile::')[-1], ok, '%s iterates a hash map via %s(): %s' % (b.name, nm,
                          kind_ or 'NOT on the reviewed list: RandomState order may leak into results'), c.span, key=ctx.key(b.name, 'S5', 'hash-iter', nm))
+    # the one ambient input the crate does consult is the process-wide log level (log::max_level inside debug!/warn!..).  It may
+    # decide whether a record is emitted and nothing else: the code run only when the level is enabled must fall through to the same
+    # continuation as the disabled side - no early return / `?` (seed C16-h parsed a chunk inside the macro arguments, so Err or Ok
+    # depended on the level), no write to the function's result or to anything reachable from its parameters
+    nlog = 0
+    E = effects.get(fx)
+    for b in scope:
+        for sw in q.switches_on(b, lambda d: any(isinstance(x, tuple) and x and x[0] == 'call' and str(x[1]).startswith(('log::max_level', 'log::logger', 'log::__private_api::enabled'))
+                                                 for x in walk(d))):
+            tm = b.blocks[sw]['term']
+            nlog += 1
+            probs = []
+            # the level-dependent region: everything between the test and the first block all its continuations share (its immediate
+            # post-dominator; an early return inside pushes that block out to the function's exit and pulls the error path in)
+            pd = b.cfg.pdom.get(sw)
+            if pd is None:
+                probs.append('the test cannot reach a normal return')
+                reg = set()
+            else:
+                cands = pd - {sw}
+                J = max(cands, key=lambda x: len(b.cfg.pdom[x]))
+                reg = b.cfg.reachable_from(sw, avoid=(J,)) - {sw, J}
+                reg = {x for x in reg if not b.blocks[x]['cleanup']}
+            if any(d[0] == 0 for d in q.defs_in(b, reg)):
+                probs.append('the function result is assigned (an early return / `?`) inside the level-dependent region')
+            ws = [w for w in E.writes(b, blocks=reg) if effects.root_of(w[0])[0] is not None]
+            if ws:
+                probs.append('state reachable from a parameter is written inside the level-dependent region (%s)' % show(ws[0][0])[:60])
+            ctx.inst('S5', '%s log-level' % b.name.split('asefile::')[-1], not probs, '%s branches on the process-wide log level: %s'
+                     % (b.name.split('asefile::')[-1], '; '.join(sorted(set(probs))) if probs else 'both sides fall through to the same continuation, nothing but the record is produced'),
+                     tm.get('span'), key=ctx.key(b.name, 'S5', 'log-level', ''))
+    ctx.extra['log_level_branches'] = nlog
     ctx.extra['ambient_calls'] = amb
     ctx.extra['hash_iterations'] = hit
 
